@@ -6,6 +6,16 @@ full:    True when the property's statement is proved at full strength (evidence
 PROOFS = {
     "C04": dict(coq=["theories/Prop_C04.v"], full=False,
                 missing="History part (the allocating side holds a committed claim when `allocated` is sent) pending."),
-    "C16": dict(coq=["theories/Prop_C16.v"], full=True,
-                missing=""),
+    "C08": dict(coq=["theories/Prop_C08.v"], full=True, missing=""),
+    "C09": dict(coq=["theories/Prop_C09.v"], full=True, missing=""),
+    "C10": dict(coq=["theories/Prop_C10.v"], full=False,
+                missing="Proved: every committed snapshot well-formed, restart never fails internally, quiescence empties the "
+                        "store. Not yet quoted: resume equivalence of re-sent commands (ResumeFacts)."),
+    "C12": dict(coq=["theories/Prop_C12.v"], full=True, missing=""),
+    "C13": dict(coq=["theories/Prop_C13.v"], full=True, missing=""),
+    "C15": dict(coq=["theories/Prop_C15.v"], full=False,
+                missing="Classification/timing rule proved for every number of sides and moods; the per-history counting "
+                        "(one record per retirement) is pending (UsageCount)."),
+    "C16": dict(coq=["theories/Prop_C16.v"], full=True, missing=""),
+    "C17": dict(coq=["theories/Prop_C17.v"], full=True, missing=""),
 }
